@@ -58,6 +58,8 @@ var targets = []target{
 	{"db", "", "ToDbKey", "db_ToDbKey"},
 	{"db", "DbBase", "Safe", "db_Safe"},
 	{"db", "DbBase", "CheckPut", "db_CheckPut"},
+	{"db", "DbBase", "SetLock", "db_SetLock"},
+	{"render", "Menu", "reset", "render_Menu_reset"},
 }
 
 type fakeImporter struct {
@@ -119,6 +121,8 @@ type tr struct {
 	muts   []string          // assigned receiver fields (lean names), order of struct declaration is not needed: sorted
 	logpk  map[string]bool
 	ptrs   map[string]bool // pointer-to-struct parameters
+	alias  map[string]bool // receiver names of inlined methods of the receiver (or of a struct embedded in it)
+	funcs  map[string]*ast.FuncDecl
 	rets   int
 	err    error
 }
@@ -226,6 +230,9 @@ func (t *tr) selName(e *ast.SelectorExpr) (string, bool) {
 				// embedded structs: only the last component names the field
 				return x.Name + "_" + parts[len(parts)-1], true
 			}
+			if t.alias[x.Name] {
+				return t.recv + "_" + parts[len(parts)-1], true
+			}
 		}
 		return "", false
 	}
@@ -276,6 +283,11 @@ func (t *tr) expr(e ast.Expr) string {
 	case *ast.UnaryExpr:
 		if x.Op == token.NOT {
 			return "(!" + t.expr(x.X) + ")"
+		}
+		if x.Op == token.XOR {
+			if n, ok := bitsOf(t.typeOf(x)); ok {
+				return fmt.Sprintf("(%d - %s)", (uint64(1)<<uint(n))-1, t.expr(x.X))
+			}
 		}
 		return t.fail(x, "unary "+x.Op.String())
 	case *ast.BinaryExpr:
@@ -403,6 +415,9 @@ func (t *tr) call(x *ast.CallExpr) string {
 			}
 		}
 	case *ast.SelectorExpr:
+		if p, ok := f.X.(*ast.Ident); ok && p.Name == "errors" && f.Sel.Name == "New" {
+			return "\"errorf\""
+		}
 		if p, ok := f.X.(*ast.Ident); ok && p.Name == "fmt" && f.Sel.Name == "Errorf" {
 			return "\"errorf\""
 		}
@@ -457,6 +472,17 @@ func (t *tr) usedIdents(body *ast.BlockStmt) map[string]int {
 
 var pureMethods = map[string]bool{"Where": true}
 
+func hasReturn(b *ast.BlockStmt) bool {
+	found := false
+	ast.Inspect(b, func(n ast.Node) bool {
+		if _, ok := n.(*ast.ReturnStmt); ok {
+			found = true
+		}
+		return true
+	})
+	return found
+}
+
 func (t *tr) result(vals []string) string {
 	all := append([]string{}, vals...)
 	all = append(all, t.muts...)
@@ -479,6 +505,27 @@ func (t *tr) stmts(ss []ast.Stmt, used map[string]int, ind string) string {
 	s, rest := ss[0], ss[1:]
 	if t.isLogCall(s) {
 		return t.stmts(rest, used, ind)
+	}
+	if es, ok := s.(*ast.ExprStmt); ok {
+		if c, ok := es.X.(*ast.CallExpr); ok && len(c.Args) == 0 {
+			if sel, ok := c.Fun.(*ast.SelectorExpr); ok {
+				root := sel.X
+				for {
+					if sx, ok := root.(*ast.SelectorExpr); ok {
+						root = sx.X
+						continue
+					}
+					break
+				}
+				if id, ok := root.(*ast.Ident); ok && (id.Name == t.recv || t.alias[id.Name]) {
+					if fd := t.funcs[sel.Sel.Name]; fd != nil && fd.Recv != nil && len(fd.Recv.List[0].Names) == 1 &&
+						(fd.Type.Results == nil || len(fd.Type.Results.List) == 0) && fd.Type.Params.NumFields() == 0 && !hasReturn(fd.Body) {
+						t.alias[fd.Recv.List[0].Names[0].Name] = true
+						return t.stmts(append(append([]ast.Stmt{}, fd.Body.List...), rest...), used, ind)
+					}
+				}
+			}
+		}
 	}
 	switch x := s.(type) {
 	case *ast.ReturnStmt:
@@ -545,11 +592,8 @@ func (t *tr) stmts(ss []ast.Stmt, used map[string]int, ind string) string {
 		case token.DEFINE, token.ASSIGN:
 			rhs = t.expr(x.Rhs[0])
 			// a constant assigned to a sized field keeps its value (go/types has checked that it fits)
-		case token.ADD_ASSIGN, token.SUB_ASSIGN:
-			op := token.ADD
-			if x.Tok == token.SUB_ASSIGN {
-				op = token.SUB
-			}
+		case token.ADD_ASSIGN, token.SUB_ASSIGN, token.OR_ASSIGN, token.AND_ASSIGN:
+			op := map[token.Token]token.Token{token.ADD_ASSIGN: token.ADD, token.SUB_ASSIGN: token.SUB, token.OR_ASSIGN: token.OR, token.AND_ASSIGN: token.AND}[x.Tok]
 			be := &ast.BinaryExpr{X: x.Lhs[0], Op: op, Y: x.Rhs[0]}
 			t.info.Types[be] = types.TypeAndValue{Type: t.typeOf(x.Lhs[0])}
 			rhs = t.binary(be)
@@ -659,13 +703,28 @@ func translate(repo string, tg target) (string, error) {
 	if fd == nil || fd.Body == nil {
 		return "", fmt.Errorf("function %s.%s not found in %s", tg.recv, tg.fn, tg.dir)
 	}
-	t := &tr{info: info, fset: fset, ptypes: map[string]string{}, logpk: logpk, ptrs: map[string]bool{}}
+	t := &tr{info: info, fset: fset, ptypes: map[string]string{}, logpk: logpk, ptrs: map[string]bool{}, alias: map[string]bool{}, funcs: map[string]*ast.FuncDecl{}}
+	dup := map[string]bool{}
+	for _, f := range files {
+		for _, d := range f.Decls {
+			if x, ok := d.(*ast.FuncDecl); ok && x.Recv != nil && x.Body != nil {
+				if t.funcs[x.Name.Name] != nil {
+					dup[x.Name.Name] = true // the same method name on two types: never inlined
+				}
+				t.funcs[x.Name.Name] = x
+			}
+		}
+	}
+	for n := range dup {
+		delete(t.funcs, n)
+	}
 	if fd.Recv != nil && len(fd.Recv.List[0].Names) == 1 {
 		t.recv = fd.Recv.List[0].Names[0].Name
 	}
 	// assigned receiver fields
 	mut := map[string]bool{}
-	ast.Inspect(fd.Body, func(n ast.Node) bool {
+	var scan func(n ast.Node) bool
+	scan = func(n ast.Node) bool {
 		if as, ok := n.(*ast.AssignStmt); ok {
 			for _, l := range as.Lhs {
 				if sel, ok := l.(*ast.SelectorExpr); ok {
@@ -675,11 +734,25 @@ func translate(repo string, tg target) (string, error) {
 				}
 			}
 		}
+		// an argument-less method called as a statement may be inlined: its assignments count as well
+		if es, ok := n.(*ast.ExprStmt); ok {
+			if c, ok := es.X.(*ast.CallExpr); ok && len(c.Args) == 0 {
+				if sel, ok := c.Fun.(*ast.SelectorExpr); ok {
+					if cfd := t.funcs[sel.Sel.Name]; cfd != nil && cfd != fd && cfd.Recv != nil && len(cfd.Recv.List[0].Names) == 1 {
+						was := t.alias[cfd.Recv.List[0].Names[0].Name]
+						t.alias[cfd.Recv.List[0].Names[0].Name] = true
+						ast.Inspect(cfd.Body, scan)
+						t.alias[cfd.Recv.List[0].Names[0].Name] = was
+					}
+				}
+			}
+		}
 		if _, ok := n.(*ast.IncDecStmt); ok {
 			t.fail(n, "++/--")
 		}
 		return true
-	})
+	}
+	ast.Inspect(fd.Body, scan)
 	for m := range mut {
 		t.muts = append(t.muts, m)
 	}
